@@ -3,8 +3,8 @@
 EXTENDS Handlers, Json
 CONSTANT Family      \* "pairs": every pair of the menu; "triples": triples of the updates; "demo": two referrer pushes
 Menu == {Put("a1", None), Put("a2", None), Put("a2", "t2"), Put("m2", "t1"), Put("m1", "t2"), Del("a1", None), Del("a2", None),
-         Del("m1", None), Del(None, "t1"), Refs("m1"), Get("t1"), TagsL}
-Updates == {Put("a1", None), Put("a2", None), Del("a1", None), Del("a2", None), Put("m2", "t1"), Refs("m1")}
+         Del("m1", None), Del(None, "t1"), Refs("m1"), Get("t1"), TagsL, BPut("b4"), BDel("b3"), BDel("b2"), BGet("b3")}
+Updates == {Put("a1", None), Put("a2", None), Del("a1", None), Del("a2", None), Put("m2", "t1"), Refs("m1"), BDel("b3"), BPut("b3")}
 MCSetups == IF Family = "demo" THEN {"s0"} ELSE {"s0", "s1", "s2", "s3"}
 MCCombos == CASE Family = "pairs"   -> {<<a, b>> : a \in Menu, b \in Menu}
               [] Family = "triples" -> {<<a, b, c>> : a \in Updates, b \in Updates, c \in Updates}
@@ -13,6 +13,6 @@ MCCombos == CASE Family = "pairs"   -> {<<a, b>> : a \in Menu, b \in Menu}
 ResJ(p) == [st |-> p.st, res |-> p.res]
 Emit == Quiet => PrintT(<<"EPISODE", ToJson([setup |-> setup, reqs |-> reqs,
                                               sched |-> [k \in DOMAIN sched |-> [a |-> sched[k][1], c |-> sched[k][2]]],
-                                              final |-> [tags |-> ix.tags, mans |-> ix.mans, refs |-> AbsOf(ix).refs],
+                                              final |-> [tags |-> ix.tags, mans |-> ix.mans, refs |-> AbsOf(ix).refs, blobs |-> bblobs],
                                               results |-> [i \in DOMAIN procs |-> ResJ(procs[i])]])>>)
 =============================================================================
